@@ -26,7 +26,10 @@ EXPLANATION = (
   "differs from the current one, at most once per page and under the page's own id, and a page "
   "without adjustment keeps a value that already satisfies R1; (R4) _removePageRecords computes "
   "the fixes over all pages in page order for the ids being removed, applies them as "
-  "(id -> indentation) before the removal, on every path. Assumption: indentations are "
+  "(id -> indentation) before the removal, on every path. Locals that merely name a field of the page, a pair or a "
+  "parameter are followed, `continue` is interpreted, and the caller clauses are decided on "
+  "values (comprehension or loop, sort()/sorted(), positional or keyword arguments). "
+  "Assumption: indentations are "
   "non-negative integers. Not decided: that *only* pages which would otherwise break the tree are "
   "changed (the function deliberately promotes the children of a removed page, as its module "
   "docstring says).")
